@@ -264,24 +264,37 @@ func longHistory(r *rand.Rand, n int) sequence {
 			q = append(q, step{Op: 'R', Inst: int8(t.idx), Member: int8(r.Intn(len(c.props)))})
 			continue
 		}
-		m := r.Intn(c.nMembers())
+		pickVal := func(p int) int8 {
+			switch k := r.Intn(100); {
+			case k < 35:
+				return t.args[p] // of the own type
+			case k < 70:
+				o := lives[r.Intn(len(lives))] // of the type some live instance was created with
+				return o.args[r.Intn(len(classes[o.class].params))]
+			case k < 85:
+				return int8(r.Intn(nValsCore))
+			}
+			return int8(r.Intn(nValsAll))
+		}
+		if roll >= 55 {
+			// a write performed from inside a method of a live instance of the same class
+			// declaration (another instantiation, the same instantiation, or the target itself)
+			var actors []live
+			for _, a := range lives {
+				if a.class == t.class {
+					actors = append(actors, a)
+				}
+			}
+			a := actors[r.Intn(len(actors))]
+			m := r.Intn(c.nPeerMembers())
+			p, _, _ := c.peerMember(m)
+			q = append(q, step{Op: 'P', Inst: int8(t.idx), Actor: int8(a.idx), Member: int8(m), Val: pickVal(p)})
+			continue
+		}
+		tm := c.topMembers(true)
+		m := tm[r.Intn(len(tm))]
 		p, _ := c.member(m)
-		var v int8
-		switch k := r.Intn(100); {
-		case k < 35:
-			v = t.args[p] // of the own type
-		case k < 70:
-			o := lives[r.Intn(len(lives))] // of the type some live instance was created with
-			v = o.args[r.Intn(len(classes[o.class].params))]
-		case k < 85:
-			v = int8(r.Intn(nValsCore))
-		default:
-			v = int8(r.Intn(nValsAll))
-		}
-		if _, via := c.member(m); via == "param" && v == vNull {
-			// every typed parameter of the interpreter accepts null, generic or not: outside the compared domain
-			v = t.args[p]
-		}
+		v := pickVal(p)
 		q = append(q, step{Op: 'W', Inst: int8(t.idx), Member: int8(m), Val: v})
 	}
 	return q
@@ -382,8 +395,17 @@ func main() {
 	d.calibrate()
 	d.regressionInputs()
 	core := alphabet{classes: []int{cBox, cPair}, nVals: nValsCore}
-	coreAll := alphabet{classes: []int{cBox, cPair}, nVals: nValsCore, withChecks: true}
+	coreAll := alphabet{classes: []int{cBox, cPair}, nVals: nValsCore, withChecks: true, withPeers: true}
 	boxOnly := alphabet{classes: []int{cBox}, nVals: nValsCore}
+	// shaped(s, bases...): the given base classes in shape s (modifier x heritage), with the
+	// parameter-only methods and the writes from inside another instance's method
+	shaped := func(shape int, bases ...int) alphabet {
+		a := alphabet{nVals: nValsCore, withChecks: true, withPeers: true}
+		for _, b := range bases {
+			a.classes = append(a.classes, b+nBases*shape)
+		}
+		return a
+	}
 
 	// (1) every history of up to 2 steps, each alone in a fresh process
 	var small []sequence
@@ -397,16 +419,30 @@ func main() {
 	if e.Quick() {
 		enumerated += d.exhaustive("enum<=3", core, 3, false)
 		enumerated += d.exhaustive("enum=4/Box", boxOnly, 4, true)
-		r := e.Rand("walk4")
-		var qs []sequence
-		for i := 0; i < 1500; i++ {
-			qs = append(qs, randomWalk(r, core, 4))
-		}
-		bs := chop(qs, batchSize)
-		lib.ParallelMap(len(bs), 0, func(i int) { d.runBatch("seeded=4", bs[i]) })
 	} else {
 		exhaustiveLen = 4
 		enumerated += d.exhaustive("enum<=4", core, 4, false)
+	}
+	// (2b) every class shape (public/protected/private members x no parent / plain parent /
+	// abstract parent + interface / parent whose constructor is called through
+	// parent::__construct / interface only): all histories of up to 3 steps over the
+	// one-parameter class, including parameter-only methods and writes from inside a method
+	// of any live instance (the target itself, the same or another instantiation); the
+	// two-parameter class and the class with a storing constructor up to 2 steps (thorough:
+	// 3), plus seeded 3..4-step histories over all three
+	for shape := 0; shape < nShapes; shape++ {
+		enumerated += d.exhaustive("shapes<=3/Box", shaped(shape, cBox), 3, false)
+		enumerated += d.exhaustive(fmt.Sprintf("shapes<=%d/Pair", e.Pick(2, 3)), shaped(shape, cPair), e.Pick(2, 3), false)
+		enumerated += d.exhaustive(fmt.Sprintf("shapes<=%d/Cell", e.Pick(2, 3)), shaped(shape, cCell), e.Pick(2, 3), false)
+	}
+	{
+		r := e.Rand("walk34")
+		var qs []sequence
+		for i := 0; i < e.Pick(3000, 60000); i++ {
+			qs = append(qs, randomWalk(r, shaped(r.Intn(nShapes), cBox, cPair, cCell), 3+r.Intn(2)))
+		}
+		bs := chop(qs, batchSize)
+		lib.ParallelMap(len(bs), 0, func(i int) { d.runBatch("seeded3-4/shapes", bs[i]) })
 	}
 
 	// (3) seeded histories of 3..4 steps alone in a fresh process (same space as (2), but
@@ -416,7 +452,7 @@ func main() {
 		n := e.Pick(600, 6000)
 		qs := make([]sequence, n)
 		for i := range qs {
-			qs[i] = randomWalk(r, coreAll, 3+r.Intn(2))
+			qs[i] = randomWalk(r, shaped(r.Intn(nShapes), cBox, cPair), 3+r.Intn(2))
 		}
 		lib.ParallelMap(n, 0, func(i int) { d.runSingle("single3-4", qs[i]) })
 	}
@@ -489,6 +525,8 @@ func main() {
 		"methods whose parameter is declared with a type parameter and that store nothing are compared only when the interpreter rejects a string for `int $x` of a plain class's method (calibrated at start, see method_parameter_types_enforced); null arguments to them are not compared because every typed parameter accepts null",
 		"race reports are attributed to the property only when one of the two accesses is made by a function of node/class_generic.go or by (*NewClassGenerated).resolveClass (first interpreter frame below Go runtime frames and the property-type accessors); all other reports are listed as unattributed",
 		"a Go-level crash of a concurrent run is attributed only when its site is in node/class_generic.go, node/new.go or data/type_generic.go",
+		"a write performed from inside a method of another instance (poke/relay/relayh) is expected to follow the TARGET instance's own arguments; actor and target are instances of the same class declaration, so protected and private members are accessible to the actor",
+		"non-public members are never stored to directly from top-level code (that is a visibility matter); they are read back through a public getter",
 	)
 	samples := d.samples
 	if len(samples) == 0 {
